@@ -130,8 +130,9 @@ SPECS = {
                                 # two declarations of one name that both carry a code, and the codes differ (whatever the two are called: arr[i], a running pointer, `prev' ...)
                                 ["n2re:^-1 != L\\[.*\\.sterm\\.code\\]$", "re:^L\\[.*\\.sterm\\.code\\] != L\\[.*\\.sterm\\.code\\]$"]],
     "YAEP_FIXED_NAME_USAGE": [['symb_find_by_repr("error") != 0'],
-                              ["L[(L[@grammar]).grammar.axiom] != 0"],
-                              ["L[(L[@grammar]).grammar.end_marker] != 0"],
+                              # the result of the lookup of the reserved name, tested directly or read back from the field it was put into (C10-fresh ties the test to the insertion)
+                              ["re:^(L\\[\\(L\\[@grammar\\]\\)\\.grammar\\.axiom\\]|symb_find_by_repr\\(\"\\$S\"\\)) != 0$"],
+                              ["re:^(L\\[\\(L\\[@grammar\\]\\)\\.grammar\\.end_marker\\]|symb_find_by_repr\\(\"\\$eof\"\\)) != 0$"],
                               ["L[(L[@grammar]).grammar.axiom] == symb_find_by_repr(read_rule())"],
                               # the symbol looked at is *rhs (pointer walk) or rhs[i] / a local holding it
                               ["re:^any\\(L\\[\\(L\\[@grammar\\]\\)\\.grammar\\.axiom\\] == symb_find_by_repr\\((.*)\\) \\| L\\[\\(L\\[@grammar\\]\\)\\.grammar\\.end_marker\\] == symb_find_by_repr\\(\\1\\)\\)$"]],
@@ -807,3 +808,112 @@ def _negated(c):
     if " != " in c:
         return c.replace(" != ", " == ", 1)
     return "not(" + c + ")"
+
+
+ADDERS = ("symb_add_term", "symb_add_nonterm")
+
+
+def rule_fresh_names(ctx, rep, config="c-lib"):
+    rep.rule("C10-fresh", "a symbol is entered into the tables (symb_add_term / symb_add_nonterm) only for a name that was looked up (symb_find_by_repr of the same name) "
+                          "and found absent, and nothing but the library's own other fixed names is entered between that lookup and the insertion -- a lookup made "
+                          "before names of the user are entered says nothing about the table at the insertion: a reserved name taken by the user in between is "
+                          "overwritten silently and the definition is accepted")
+    from .r14 import path_exists
+    p = ctx.prog(config)
+    m = p.m
+    n = 0
+    for f in m.defined():
+        adds = [i for i in f.calls() if i.callee in ADDERS]
+        if not adds or f.name in ADDERS:
+            continue
+        rep.cover(p, [f.name])
+        looks = [i for i in f.calls() if i.callee == "symb_find_by_repr"]
+
+        def _addr(op):
+            expr.NAMED[0] = True
+            expr.ROLES[0] = roles_of(f)
+            try:
+                return expr.addr_str(f, op, 0, 4)
+            finally:
+                expr.NAMED[0] = False
+                expr.ROLES[0] = None
+
+        def _cells(op, depth=0):
+            """the memory cells read to form the value (chain of loads)"""
+            i = f.inst(strip_casts(f, op))
+            if i is None or i.op != "load" or depth > 3:
+                return []
+            return [i.ops[0]] + _cells(i.ops[0], depth + 1)
+
+        def same_name(K, A):
+            a, b = K.args[0], A.args[0]
+            sa, sb = m.string_of(a), m.string_of(b)
+            if sa is not None or sb is not None:
+                return sa == sb
+            if strip_casts(f, a) == strip_casts(f, b):
+                return True
+            if repr(_lin(f, a)) != repr(_lin(f, b)):
+                return False
+            # the same expression over memory: nothing it reads is written between the lookup and the insertion
+            cells = set(_addr(c) for c in _cells(b))
+            for st in f.all_insts():
+                if st.op == "store" and _addr(st.ops[1]) in cells and path_exists(f, K, st, [A]) and path_exists(f, st, A, [K]):
+                    return False
+            return True
+
+        def is_result(x, K, depth=0):
+            """x is the result of the lookup K, directly or read back from where it was stored"""
+            x = strip_casts(f, x)
+            if x.get("k") == "i" and x["v"] == K.id:
+                return True
+            ix = f.inst(x)
+            if ix is None or depth > 1:
+                return False
+            if ix.op == "load":
+                a = _addr(ix.ops[0])
+                for s_ in f.all_insts():
+                    if s_.op == "store" and is_result(s_.ops[0], K, depth + 1) and f.inst_dominates(s_, ix) and _addr(s_.ops[1]) == a:
+                        return True
+            return False
+
+        for A in adds:
+            n += 1
+            key = "%s/%s@%s" % (f.name, A.callee, A.where().rsplit("/", 1)[-1])
+            name = A.args[0]
+            conds = _controlling_conditions(f, A.block.name)
+            found = None
+            for K in looks:
+                if not f.inst_dominates(K, A) or not same_name(K, A):
+                    continue
+                for (c, pol) in conds:
+                    if c.op != "icmp" or c.d["pred"] not in ("eq", "ne"):
+                        continue
+                    for (x, y) in ((0, 1), (1, 0)):
+                        if c.ops[y].get("k") == "null" or const_int(c.ops[y]) == 0:
+                            if is_result(c.ops[x], K) and pol == (c.d["pred"] == "eq"):
+                                found = K
+                if found is not None:
+                    break
+            if found is None:
+                rep.violation("C10-fresh", key, "the insertion is not controlled by `symb_find_by_repr (<the same name>) == NULL': a name that is in the table already "
+                              "(the user's, or a reserved one) is entered a second time", where=A.where(), witness=[A.where()])
+                continue
+            between = []
+            myname = m.string_of(name)
+            for O in adds:
+                if O is A:
+                    continue
+                oname = m.string_of(O.args[0])
+                if oname is not None and myname is not None and oname != myname:
+                    continue      # another fixed name of the library
+                if oname is not None and myname is None:
+                    pass          # a fixed name entered between the lookup of a user's name and its insertion could be that name
+                if path_exists(f, found, O, [A]) and path_exists(f, O, A, [found]):
+                    between.append(O)
+            if between:
+                rep.violation("C10-fresh", key, "between the lookup %s and the insertion other names are entered (%s): the lookup does not show that the name is absent "
+                              "when it is entered -- a symbol of the user with this name is overwritten and the definition accepted" % (
+                                  found.where(), ", ".join(o.where() for o in between)), where=A.where(), witness=[found.where()] + [o.where() for o in between] + [A.where()])
+            else:
+                rep.ok("C10-fresh", key, sample={"insertion": A.where(), "lookup": found.where()})
+    rep.floor("C10-fresh", "symbol insertions", n, 6)
